@@ -1,7 +1,7 @@
 use sudachi_verif::common::*;
 use sudachi_verif::engine::*;
 use sudachi_verif::gen::*;
-use sudachi_verif::props::c01::Case;
+use sudachi_verif::props::c03::Case;
 fn main() {
     install_panic_hook();
     let ctx = Ctx { dir: scratch_dir("probe"), strict: false, tier: Tier::Quick };
@@ -15,9 +15,10 @@ fn main() {
         for mode in MODES {
             let r = guarded(|| {
                 let ml = analyze(&d, &text, mode, None).unwrap();
-                ml.iter().map(|m| format!("{}..{} wid={:?}", m.begin(), m.end(), m.word_id())).collect::<Vec<_>>()
+                let n = ml.len();
+                (n, ml.get(0).total_cost(), ml.get(n-1).total_cost(), ml.get(n-1).word_id(), ml.get(1).end())
             });
-            println!("{:?} {} -> {:?}", text, mode_name(mode), r);
+            println!("{} {} -> {:?}", text.len(), mode_name(mode), r);
         }
     }
 }
